@@ -58,14 +58,14 @@ static void base_build(uint64_t b, struct kx_set* s)
 
 /* ---------------- presentations ---------------- */
 enum { P_WRAP = 0, P_BLANK = 7, P_PAD = 9, P_GAP1 = 12, P_GAP2 = 12 + 108, P_MOSTLY = 12 + 108 + 27, P_CLU = P_MOSTLY + 3, P_MSF = P_CLU + 6,
-       P_SPLIT = P_MSF + 6, P_STDIN = P_SPLIT + 12, P_LATE = P_STDIN + 4, P_NONL = P_LATE + 6, P_CRLF = P_NONL + 3, P_TAB = P_CRLF + 3, P_END = P_TAB + 4 };
+       P_SPLIT = P_MSF + 6, P_STDIN = P_SPLIT + 12, P_LATE = P_STDIN + 8, P_NONL = P_LATE + 6, P_CRLF = P_NONL + 3, P_TAB = P_CRLF + 3, P_END = P_TAB + 4 };
 static const int WRAPS[7] = {1, 2, 3, 59, 60, 61, 0};
 static const char GAPSYM[3] = {'-', '.', '~'};
 static const int RUNLEN[3] = {1, 2, 100};
 
 uint64_t vh_total(int tier) { return nbase(tier) * P_END; }
 
-struct files { int n; char path[3][400]; int use_stdin; char stdin_path[400]; };
+struct files { int n; char path[3][400]; int use_stdin; char stdin_path[400]; int dash_i; };
 
 static void put(const char* path, const char* txt)
 {
@@ -200,7 +200,7 @@ static const char* present_name(int p)
         }else if(p < P_STDIN){
                 snprintf(b, sizeof b, "records split over several files (variant %d)", p - P_SPLIT);
         }else if(p < P_LATE){
-                snprintf(b, sizeof b, "command line with standard input (variant %d)", p - P_STDIN);
+                snprintf(b, sizeof b, "command line with standard input (variant %d%s)", (p - P_STDIN) % 4, (p - P_STDIN) >= 4 ? ", first file as -i" : "");
         }else if(p < P_NONL){
                 int q = p - P_LATE;
                 snprintf(b, sizeof b, "gap characters ('%c') only in the last %d record(s), ragged FASTA", GAPSYM[q % 3], q / 3 ? 8 : 1);
@@ -221,6 +221,7 @@ static int present(const struct kx_set* s, int p, struct files* f)
         int i, n = s->n;
         f->n = 1;
         f->use_stdin = 0;
+        f->dash_i = 0;
         snprintf(f->path[0], sizeof f->path[0], "%s/p0.in", vh_tmpdir);
         snprintf(f->path[1], sizeof f->path[1], "%s/p1.in", vh_tmpdir);
         snprintf(f->path[2], sizeof f->path[2], "%s/p2.in", vh_tmpdir);
@@ -445,9 +446,14 @@ static int present(const struct kx_set* s, int p, struct files* f)
                 }
                 vh_write_file(f->path[0], TXT, l);
         }else{
-                /* command line: 0: everything on stdin; 1: first record(s) on stdin, rest in a file; 2: one file, empty stdin; 3: stdin + two files */
-                int q = p - P_STDIN;
+                /* command line: 0: everything on stdin; 1: first record(s) on stdin, rest in a file; 2: one file, empty stdin; 3: stdin + two files;
+                   4..7: the same with the first file given as "-i <file>" and the others as positional arguments */
+                int q = (p - P_STDIN) % 4;
                 f->use_stdin = 1;
+                f->dash_i = (p - P_STDIN) / 4;
+                if(f->dash_i && q == 0){
+                        return 0;       /* no file to name */
+                }
                 if(q == 0){
                         write_fasta_rows(s, 0, n, 60, f->stdin_path);
                         f->n = 0;
@@ -551,6 +557,9 @@ int vh_case(uint64_t id, int tier)
                 unlink(out);
                 argv[n++] = "kalign";
                 for(i = 0; i < f.n; i++){
+                        if(i == 0 && f.dash_i){
+                                argv[n++] = "-i";
+                        }
                         argv[n++] = f.path[i];
                 }
                 argv[n++] = "-o";
